@@ -267,10 +267,29 @@ def one_pair(ctx, out, s0, s1, trees=None):
             mfull = model_shape(ctx.driver.ask({"op": "diff", "t0": j0, "t1": j1, "ordered": ordered, "reduce": False})["ok"], pool)
             if sh not in [reduce_spec(v) for v in variants(undo(mfull))] or msh not in [reduce_spec(v) for v in variants(undo(mfull))]:
                 out.disagree(case, f"diff(reduce): implementation {sh}, model {msh}")
-    # identical copy
-    dd = t0.diff(t0.copy())
-    if any(x[1] is not None for x in json.loads(json.dumps(shape(dd.children))) and _flat(shape(dd.children))):
-        out.fail(dict(t0=s0, t1="copy"), f"diff with an identical copy carries marks: {shape(dd.children)}")
+    identical_checks(out, t0, s0)
+
+
+def identical_checks(out, t0, s0):
+    """a tree compared with an identical copy, and with ITSELF (the same object on both sides): no marks; with reduce=True
+    nothing is kept (no node is marked), without it every node is there"""
+    n0 = len(_flat(shape(t0.children)))
+    for who in ("copy", "self"):
+        for ordered in (False, True):
+            for reduce in (False, True):
+                case = dict(t0=s0, t1=who, ordered=ordered, reduce=reduce)
+                out.dist["identical:" + who] += 1
+                try:
+                    dd = t0.diff(t0.copy() if who == "copy" else t0, ordered=ordered, reduce=reduce)
+                    fl = _flat(shape(dd.children))
+                except Exception as e:  # noqa
+                    out.fail(case, f"diff with {'an identical copy' if who == 'copy' else 'the tree itself'} (ordered={ordered}, reduce={reduce}) raised {e!r}")
+                    continue
+                if any(x[1] is not None for x in fl):
+                    out.fail(case, f"diff with {'an identical copy' if who == 'copy' else 'the tree itself'} (ordered={ordered}, reduce={reduce}) carries marks: {shape(dd.children)}")
+                elif len(fl) != (0 if reduce else n0):
+                    out.fail(case, f"diff with {'an identical copy' if who == 'copy' else 'the tree itself'} (ordered={ordered}, reduce={reduce}) has {len(fl)} nodes, "
+                                   f"expected {0 if reduce else n0} (no node is marked)")
 
 
 def full_snapshot(tree):
@@ -378,8 +397,9 @@ def replay(ctx, rp):
 
     case = rp["case"]
     out = core.Outcome()
-    if case.get("t1") == "copy":
-        return dict(property_holds=False, case=case)
+    if case.get("t1") in ("copy", "self"):
+        identical_checks(out, adapter.build(tuplify_d(case["t0"]), ctx.pool), case["t0"])
+        return dict(failures=[f["what"] for f in out.oracle_failures[:4]], property_holds=not out.oracle_failures)
     if isinstance(case.get("t0"), dict) and "mut" in case["t0"]:
         m = case["t0"]["mut"]
         mut_pair(ctx, out, tuplify_d(m["t0"]), tuplify_d(m["t1"]), m["seed"], m["steps"])
